@@ -92,6 +92,7 @@ MCNext ==
   \/ \E tso \in {0, WeekLen, offset - WeekLen, offset, offset + 1, offset + WeekLen, offset + Window} :
        \E neg \in BOOLEAN : tso >= 0 /\ Query(tso, neg)
   \/ Close \/ StartLoad \/ StartDone
+  \/ Crash
 
 MCSpec == MCInit /\ [][MCNext]_vars
 MCView == <<now, up, offset, live, impact, archive, bans, equip, DiskView>>
